@@ -756,6 +756,25 @@ class Interp:
         return a == b
 
     def call(self, e, env, mod, cls):
+        fx = e.func
+        if isinstance(fx, ast.Attribute) and isinstance(fx.value, ast.Call) and isinstance(fx.value.func, ast.Name) \
+                and fx.value.func.id == 'super' and not fx.value.args and not fx.value.keywords and cls is not None:
+            # zero-argument super(): the next definition after the class the running code belongs to, in the MRO of the object
+            ok, selfo = env.get('self')
+            if not ok or not isinstance(selfo, Obj) or selfo.cls is None or isinstance(selfo.cls, NTType):
+                self.fail(e, 'super() outside a method of an indexed class')
+            mro = self.idx.mro(selfo.cls)
+            if cls not in mro:
+                self.fail(e, 'super(): %s is not in the MRO of the object' % cls.name)
+            args = [self.ev(a, env, mod, cls) for a in e.args]
+            kwargs = {kw.arg: self.ev(kw.value, env, mod, cls) for kw in e.keywords}
+            for k in mro[mro.index(cls) + 1:]:
+                rn = self.raw(k, self.mangle(fx.attr, cls))
+                if rn in k.methods:
+                    return self.call_function(FuncRef(k.mod, k.methods[rn], k), args, kwargs, e, selfobj=selfo)
+            if fx.attr == '__init__' and not args and not kwargs:
+                return None         # object.__init__
+            self.fail(e, 'super().%s not found' % fx.attr)
         f = self.ev(e.func, env, mod, cls)
         args = []
         for a in e.args:
